@@ -9,12 +9,14 @@ outputs:
 
 * no operation may panic;
 * a data segment that violates the protocol (`Spec.mustReject`, evaluated on a ghost view that is
-  maintained from the wire bytes only) must be refused;
+  maintained from the wire bytes only, plus the segment size the implementation reports) must be refused;
 * the messages fetched at an end are a prefix of the reassembly of the segments that end accepted
   (`Spec.Reasm`), byte-identical — nothing corrupted, duplicated or reordered;
 * an end never has more unacknowledged segments in flight than the negotiated window;
 * when an acknowledgement is pending and the deadline has passed, `is_ack_due` answers yes and the
   pump emits it (if the send window has room);
+* the connection idle timeout (`Btp::timeout`) is compared with the model's `isTimedOut` and may fire
+  only while a segment is awaiting an acknowledgement;
 * kind `l` (two well-behaved ends): no operation fails, and the messages fetched at one end are a
   prefix of the messages accepted for sending at the other end.
 -/
@@ -43,7 +45,7 @@ def hex (bs : List Nat) : String :=
 structure Ghost where
   dead : Bool := false
   hasWindow : Bool := false
-  view : Spec.View := { lastSeq := 255, window := 0, unackedRx := 0, lastSent := 255, outstanding := 0, remaining := 0 }
+  view : Spec.View := { lastSeq := 255, window := 0, unackedRx := 0, lastSent := 255, outstanding := 0, remaining := 0, segSize := 0 }
   reasm : Spec.Reasm := {}
   submitted : List (List Nat) := []
   fetched : List (List Nat) := []
@@ -128,9 +130,11 @@ def onRx (g : Ghost) (seg : List Nat) (implOk : Bool) (now : Nat) : Ghost × Opt
         if g.initiator then
           match decodeResp payload with
           | .ok r =>
-            ({ g with hasWindow := true, reasm := {}, fetched := [], fetchedCaps := [],
-                      view := { lastSeq := 0, window := r.windowSize, unackedRx := 0, lastSent := 255,
-                                outstanding := 0, remaining := 0 } }, none)
+            -- the handshake response is the responder's segment number 0: it takes one slot of the
+            -- window and has to be acknowledged like every other segment (deadline from now on)
+            ({ g with hasWindow := true, reasm := {}, fetched := [], fetchedCaps := [], lastRxAt := now,
+                      view := { lastSeq := 0, window := r.windowSize, unackedRx := 1, lastSent := 255,
+                                outstanding := 0, remaining := 0, segSize := 0 } }, none)
           | .error _ => (g, none)
         else
           -- responder: the negotiated window is learnt from the response it emits (`onTx`); until
@@ -138,12 +142,14 @@ def onRx (g : Ghost) (seg : List Nat) (implOk : Bool) (now : Nat) : Ghost × Opt
           let rw := match decodeReq payload with | .ok q => q.windowSize | .error _ => 0
           ({ g with hasWindow := false, reasm := {}, fetched := [], fetchedCaps := [],
                     view := { lastSeq := 255, window := rw, unackedRx := 0, lastSent := 255,
-                              outstanding := 0, remaining := 0 } }, none)
+                              outstanding := 0, remaining := 0, segSize := 0 } }, none)
       else (g, none)
     else
-      let must := Spec.mustReject g.view h payload
+      -- the negotiated segment size is the one the implementation reports (field 0 of its state)
+      let must := g.impl.length == 14 &&
+        Spec.mustReject { g.view with segSize := g.impl.getD 0 0 } h payload
       if implOk then
-        let why := if must then some s!"accepted a protocol-violating segment (seq={h.seqNum} ack={h.getAck} beg={h.beg} fin={h.fin} len={h.msgLen} payload={payload.length} view={repr g.view})" else none
+        let why := if must then some s!"accepted a protocol-violating segment (seq={h.seqNum} ack={h.getAck} beg={h.beg} cont={h.cont} fin={h.fin} mgmt={h.mgmt} len={h.msgLen} payload={payload.length} view={repr g.view})" else none
         let v := g.view
         let remBase := if h.beg then h.msgLen else v.remaining
         let v' : Spec.View := { v with
@@ -153,8 +159,14 @@ def onRx (g : Ghost) (seg : List Nat) (implOk : Bool) (now : Nat) : Ghost × Opt
         ({ g with view := v', reasm := g.reasm.feed h payload, lastRxAt := now }, why)
       else (g, none)
 
+/-- an acknowledgement is pending (something accepted since our last acknowledgement, and no
+complete message waiting to be fetched) and its deadline has passed -/
+def ackOverdue (g : Ghost) (now : Nat) : Bool :=
+  g.hasWindow && g.view.unackedRx > 0 && g.fetched.length == g.reasm.done.length
+    && g.lastRxAt + ackTimeoutSecs ≤ now
+
 /-- ghost update + specification check for a segment emitted by end `x` -/
-def onTx (g : Ghost) (seg : List Nat) : Ghost × Option String :=
+def onTx (g : Ghost) (seg : List Nat) (now : Nat) : Ghost × Option String :=
   match decodeHdr seg with
   | .error _ => (g, some "emitted an undecodable segment")
   | .ok (h, payload) =>
@@ -173,14 +185,9 @@ def onTx (g : Ghost) (seg : List Nat) : Ghost × Option String :=
       let why :=
         if h.seqNum ≠ (v.lastSent + 1) % 256 then some s!"emitted sequence number {h.seqNum} after {v.lastSent}"
         else if v'.outstanding > v.window then some s!"{v'.outstanding} unacknowledged segments in flight, window {v.window}"
+        else if !h.ack && ackOverdue g now then some "an acknowledgement is overdue, but the segment emitted does not carry it"
         else none
       ({ g with view := v' }, why)
-
-/-- an acknowledgement is pending (something accepted since our last acknowledgement, and no
-complete message waiting to be fetched) and its deadline has passed -/
-def ackOverdue (g : Ghost) (now : Nat) : Bool :=
-  g.hasWindow && g.view.unackedRx > 0 && g.fetched.length == g.reasm.done.length
-    && g.lastRxAt + ackTimeoutSecs ≤ now
 
 def failStr : Fail → String
   | .panic _ => "panic"
@@ -211,13 +218,17 @@ def step (st : St) (line : String) : St × String :=
   | "rpush" :: _ | "rpop" :: _ | "rpushb" :: _ | "rpopb" :: _ | "rclear" :: _ =>
     match st.ring, parseRingOp (words op) with
     | some r, some rop =>
-      let (r', mo) := r.step rop
+      -- the checked model: a panic / endless loop of the model is an answer of its own
+      let (r', mo) : Ring × String := match r.step rop with
+        | .ok (r', o) => (r', obsStr o)
+        | .error (.panic _) => (r, "panic")
+        | .error .hang => (r, "hang")
       -- specification: the bounded byte FIFO, evaluated on the implementation's own output
       let (q', so) := qStep st.ringN st.ringQ rop
       let ora := if out = "panic" then some "panic"
         else if out ≠ obsStr so then some s!"ring buffer: the implementation answered '{out}', a byte queue of capacity {st.ringN} answers '{obsStr so}'"
         else none
-      ({ st with ring := some r', ringQ := q' }, verdict ora (obsStr mo) out)
+      ({ st with ring := some r', ringQ := q' }, verdict ora mo out)
     | _, _ => (st, "BAD ring op")
   | "case" :: _ :: kind :: ia :: ib :: ga :: gb :: ra :: rb :: _ =>
     let n (s : String) := s.toNat?.getD 0
@@ -277,7 +288,7 @@ def step (st : St) (line : String) : St × String :=
           | some seg => l'.setInq x.other (st.link.inq x.other ++ [seg])
           | none => l'.setInq x.other (st.link.inq x.other)
         let (g', why) : Ghost × Option String := match implSeg with
-          | some seg => onTx g seg
+          | some seg => onTx g seg st.now
           | none =>
             if res = "none" && ackOverdue g st.now && g.view.outstanding < g.view.window then
               (g, some "an acknowledgement is overdue and the send window has room, but nothing was sent")
@@ -333,6 +344,15 @@ def step (st : St) (line : String) : St × String :=
         let d := e.s.isAckDue st.link.now ackTimeoutSecs
         let mo := if d then "1" else "0"
         let why := if ackOverdue g st.now && res = "0" then some "acknowledgement pending past the deadline but is_ack_due = false" else none
+        (st, verdict (wb why false) mo out)
+      | "tmo", [] =>
+        -- `Btp::timeout()`: the connection idle timeout (`Session::is_timed_out`, 30 s)
+        let d := e.timeout st.link.now
+        let mo := if d then "1" else "0"
+        -- specification: the session may only be declared dead while one of our segments is
+        -- still awaiting an acknowledgement
+        let why := if res = "1" && g.hasWindow && g.view.outstanding == 0 then
+            some "the idle timeout fired although no segment is awaiting an acknowledgement" else none
         (st, verdict (wb why false) mo out)
       | _, _ => (st, "BAD op")
   | _ => (st, "BAD line")
